@@ -19,6 +19,7 @@
 //! flush `pending_count()` still accounts for the batch; at the end (after a final flush that
 //! succeeds) every accepted update that was not abandoned by a restart is recovered.
 
+mod fs;
 mod model;
 mod store;
 mod wb;
@@ -1220,6 +1221,7 @@ fn main() {
     );
     s.assume("fault model: a store call completes, or fails with an error (a put possibly after storing a prefix of its payload), or the process dies during it (a put leaves a prefix under its key — also over an existing object; rename and delete are atomic). A put that RETURNS Ok has stored all its bytes: 'short write reported as success' (modelled by the in-tree SimulatedObjectStore) is outside the domain");
     s.assume("third outcome per call: the operation TAKES EFFECT and still reports an error (timeout after commit): put = object fully stored + error; delete = object gone + error; rename = destination written, source still present + error (copy-then-delete as in the in-tree S3 store with the delete failing)");
+    s.assume("fs_conformance / fs_workloads run on the real LocalFsObjectStore in scratch directories under <VERIF_ROOT>/.work/c12-fs (created and removed per case); InMemoryObjectStore is the reference semantics for the differential check; object timestamps are not compared");
     s.assume("injected errors are ErrorKind::Other (as SimulatedObjectStore's); a transient NotFound on the manifest (which load_or_create treats as 'no manifest yet') is not injected");
     s.assume("tombstone garbage collection is C13's subject: a confirmed LWW update may be absent from the recovered state iff a compaction had started and a confirmed tombstone of the same key with a stamp >= the update's is droppable by the implementation's rule (stamp.time < compactor_now_ms - ttl_ms); under the simulated clock that is accepted unless a client-visible value of the key came back (then KF-C13-03), under the production-like clock it is counted under KF-C13-02");
     s.assume("the Checkpoint op snapshots what a node recovered from the current store would hold (computed by the harness on a copy of the image) and covers every segment the manifest lists; each checkpoint object gets its own key (production keys them by wall-clock ms)");
@@ -1276,5 +1278,32 @@ fn main() {
         },
         wb::check,
     );
+    s.describe_check(
+        "fs_conformance",
+        "differential: generated sequences of put (shorter / longer / equal overwrites), get, exists, head, rename (also over an existing object), delete, list (9 prefixes) on 8 keys, executed on LocalFsObjectStore (fresh directory under .work/c12-fs, removed per case) and on InMemoryObjectStore; every answer must be identical, and every key must read back identically at the end",
+    );
+    s.run_cases(
+        "fs_conformance",
+        s.scale(1_500, 150_000),
+        || {
+            let op = prop_oneof![
+                6 => (any::<u8>(), prop_oneof![Just(0u16), 1u16..40, 40u16..700], any::<u8>()).prop_map(|(key, len, fill)| fs::FsOp::Put { key, len, fill }),
+                3 => any::<u8>().prop_map(|key| fs::FsOp::Get { key }),
+                1 => any::<u8>().prop_map(|key| fs::FsOp::Exists { key }),
+                1 => any::<u8>().prop_map(|key| fs::FsOp::Head { key }),
+                2 => (any::<u8>(), any::<u8>()).prop_map(|(from, to)| fs::FsOp::Rename { from, to }),
+                1 => any::<u8>().prop_map(|key| fs::FsOp::Delete { key }),
+                2 => any::<u8>().prop_map(|prefix| fs::FsOp::List { prefix }),
+            ];
+            proptest::collection::vec(op, 2..30).prop_map(|ops| fs::FsCase { ops })
+        },
+        fs::check_conformance,
+    );
+    s.describe_check(
+        "fs_workloads",
+        "workloads (push / flush / compact / reopen, <= 14 ops) on StreamingPersistence + Compactor over LocalFsObjectStore behind a fault layer: fault-free, then every call failing once (without effect; puts also half-written; puts, renames, deletes also after the effect); after every op the directory must recover through a plain LocalFs store, the manifest must name only valid objects, confirmed updates must be there",
+    );
+    s.run_cases("fs_workloads", s.scale(40, 4_000), || workload(14), fs::check_fs_workload);
+    fs::cleanup_root();
     s.finish();
 }
